@@ -54,7 +54,8 @@ structure Probe (J V : Type) where
   /-- for a do: the request carried a payload (anything but JSON null) -/
   hasData : Bool := false
   /-- for a do with a payload: the argument datatype a client rebuilds from the DESCRIBED command datainfo imports
-  and validates the payload (computed by the real datatype code, compared here) -/
+  and validates the payload; for a change: the datatype a client rebuilds from the DESCRIBED parameter datainfo does
+  (computed by the real datatype code, compared here) -/
   clientAccepts : Bool := false
 
 def Reply.isError : Reply J → Bool
@@ -88,6 +89,9 @@ def describedAccepts (clientAccepts : J → J → Bool) (ad : AccDesc J) (data :
   parameter can not be executed (`NoSuch…`, no call);
 * a parameter described read-only refuses every change with ReadOnly, one described writable never answers ReadOnly
   and a change nothing objects to is not refused;
+* the described datainfo of a parameter accepts and rejects the same payloads as the node: a payload the described
+  datainfo excludes is refused by a parameter described writable, and nothing is written (the other direction — what
+  the description accepts, the node's datatype accepts — is `datainfoAgreeB` + `allowed`);
 * a described constant reads as exactly that constant, without asking the driver;
 * the described datainfo of a command accepts and rejects the same payloads as the node: a payload the described
   datainfo excludes is refused and the command NOT executed, one it accepts reaches the command function -/
@@ -100,7 +104,8 @@ def ProbeOK [DecidableEq J] (d : List (ModDesc J)) (pr : Probe J V) : Prop :=
       (ad.kind = .command → isNoSuch pr.reply = true ∧ pr.calls = [])
       ∧ (ad.readonly = some true → pr.reply = .error .readOnly ∧ pr.calls = [])
       ∧ (ad.readonly = some false → pr.reply ≠ .error .readOnly ∧
-          (pr.allowed = true → pr.calls ≠ [] ∨ Reply.isError pr.reply = false))
+          (pr.allowed = true → pr.calls ≠ [] ∨ Reply.isError pr.reply = false) ∧
+          (pr.clientAccepts = false → Reply.isError pr.reply = true ∧ pr.calls = []))
     | .read =>
       (ad.kind = .command → isNoSuch pr.reply = true ∧ pr.calls = [])
       ∧ (match ad.constant with
